@@ -240,7 +240,7 @@ package core
 // getOverlaps: exactly the indexed regions that overlap the argument, in key order, each once. own/idx are the
 // specification's names for "the item behind result[i]" and "the position of item x in the result".
 //@ func (*regionTree).getOverlaps
-//@   props C07
+//@   props C06 C07
 //@   requires t != nil && t.tree != nil && region != nil && region.meta != nil && itemsOK(t.tree)
 //@   requires [index-ok] @index disjointT(t.tree)
 //@   at find 1 mode index when index
@@ -256,7 +256,7 @@ package core
 // update deletes every indexed item that overlaps the new one, inserts it and returns the displaced regions.
 //@ opaque RegionToHexMeta
 //@ func (*regionTree).update
-//@   props C07
+//@   props C06 C07
 //@   requires t != nil && t.tree != nil && item != nil && item.region != nil && item.region.meta != nil && itemsOK(t.tree)
 //@   requires [index-ok] @index disjointT(t.tree) && !bthas[t.tree][item] && validRange(item.region)
 //@   at getOverlaps 1 mode index when index
